@@ -20,7 +20,8 @@ Fixpoint list_eqb {A} (f : A -> A -> bool) (l l' : list A) : bool :=
 (* observed after every step: the hook log so far and, per process, (terminated, Err code, sorted own keys, Join would return) *)
 Record obs04 := mkobs04 {
   o_log : list (nat * nat);
-  o_procs : list (bool * nat * list nat)
+  o_procs : list (bool * nat * list nat);
+  o_join : option (nat * bool)     (* a Join probe on one process: (pid, returned) *)
 }.
 
 (* c04join: at the end of the history, for every process, whether Join returned *)
@@ -53,6 +54,10 @@ Fixpoint c04run (st : pstate) (steps : list (pop * obs04)) (joins : list bool) :
       let st' := fst (p_step st op) in
       list_eqb pair_eqb (hlog st') (o_log ob) &&
       list_eqb view_eqb (map view (procs st')) (o_procs ob) &&
+      match o_join ob with
+      | None => true
+      | Some (pid, ret) => Bool.eqb (Nat.eqb (p_wait (get_proc st' pid)) 0) ret
+      end &&
       c04run st' rest joins
   end.
 
